@@ -272,3 +272,34 @@ def r11b(fb, rep):
                       "the checker types %d primitive operators the compiler does not handle (an accepted program then hits `ice!(Undefined variable)`): %s" % (
                           len(missing), " ".join(missing)), tb.where())
     rep.extra["checker_form"] = form
+
+
+def r11c(fb, rep):
+    """R11c — recursive value groups: each member's CloseData closes *its own* pre-allocated slot.
+
+    `rec let` groups of values are compiled by pre-allocating every member (`NewRecord` / `NewVariant`) and, once the member's
+    fields are on the stack, patching the construction into `CloseData { index }` which copies the fields into the cell at stack
+    slot `index`.  The two branches that do this (record / variant) are siblings: both must address slot `stack_start + i` where
+    i is the member's position in the group (the enumerate index).  A branch that drops the position closes the first member's
+    cell with every member's fields (silent wrong value / wrong-shape error)."""
+    R = "R11c"
+    rep.rule(R, "every CloseData built for a recursive value group addresses stack_start + the member's own position")
+    b = fb.body("gluon_vm::compiler::Compiler::<'a>::compile_")
+    if b is None:
+        rep.anchor_lost(R, "Compiler::compile_")
+        return
+    sigs = []
+    for i, j, pl, rv, ln in b.assigns():
+        if rv[0] == "agg" and rv[1][0] == "adt" and rv[1][1] == "gluon_vm::types::Instruction" and rv[1][2] == "CloseData":
+            srcs = flow.sources(b, rv[2][0], depth=10)
+            pos = flow.has_call(srcs, lambda n: "Enumerate" in n and n.endswith("::next"))
+            add = any(s[0] == "op" and s[1].startswith("Add") for s in srcs)
+            sigs.append((ln, pos, add))
+    rep.floor(R, "CloseData constructions in compile_", len(sigs), 2)
+    for ln, pos, add in sigs:
+        if pos and add:
+            rep.ok(R, "compile_ (line %s): CloseData { index: stack_start + i }" % ln)
+        else:
+            rep.violation(R, "close-data-index|%s" % ("no-position" if not pos else "no-offset"),
+                          "a CloseData built in Compiler::compile_ does not address `stack_start + <member position>` (position=%s, sum=%s) while its sibling does: "
+                          "the member's fields are written into another member's cell" % (pos, add), "%s:%s" % (b.file, ln))
